@@ -174,15 +174,20 @@ impl Remover {
                 let end_cursor = child_markers.len()
                     - Self::merge_child_markers(child_markers.iter().rev(), &mut end_marker);
 
-                let current = acc.len();
-                acc.push((
-                    marker,
-                    Some(current + (end_cursor - start_cursor).max(0) + 1),
-                ));
-                if start_cursor < end_cursor {
-                    acc.extend(child_markers[start_cursor..end_cursor].to_owned());
+                if start_cursor > end_cursor {
+                    // A child marker touches both parts: they form one contiguous range.
+                    acc.push((marker.start..end_marker.end, None));
+                } else {
+                    let current = acc.len();
+                    acc.push((
+                        marker,
+                        Some(current + (end_cursor - start_cursor).max(0) + 1),
+                    ));
+                    if start_cursor < end_cursor {
+                        acc.extend(child_markers[start_cursor..end_cursor].to_owned());
+                    }
+                    acc.push((end_marker, Some(current)));
                 }
-                acc.push((end_marker, Some(current)));
             } else {
                 acc.push((marker, None));
             }
